@@ -35,6 +35,8 @@ def gen_case(rng, bias):
     """bias = 'count' (mostly CLOSED, counting rule) or 'cycle' (open / half-open cycles)."""
     if bias == "count" and rng.random() < 0.06:
         return gen_two_bucket_cycle(rng)
+    if bias == "cycle" and rng.random() < 0.08:
+        return gen_reopen_after_probe(rng)
     win = rng.choice([1, 2, 3, 5, 8, 64])
     rto = rng.choice([1, 2, 3, 5, 8, 64])
     thr = rng.choice([1, 2, 2, 3, 3, 4, 5]) if bias == "count" else rng.choice([1, 1, 2, 2, 3])
@@ -76,6 +78,23 @@ def gen_case(rng, bias):
             hist.append([dt, "Q", None])
     return {"thr": thr, "win": win, "rto": rto, "trip_on": trip, "cthr": cthr,
             "t0": rng.choice([0, 3, 1000, 2**40]), "hist": hist}
+
+
+def gen_reopen_after_probe(rng):
+    """open on a class threshold (or the global one), recover through a successful probe, then fail again inside the same window: the
+    history a closed circuit starts from must be empty, for the global deque and for every class bucket"""
+    a, b = rng.sample(KLASSES, 2)
+    n = rng.choice([2, 2, 3])
+    rto = rng.choice([1, 2, 5])
+    by_class = rng.random() < 0.7
+    cfg = {"thr": n + 3 if by_class else n, "win": rng.choice([10**5, 64 + rto, 3 * rto + 8]), "rto": rto,
+           "trip_on": rng.choice([None, [a], [a, b]]) if by_class else [a, b], "cthr": {a: n} if by_class else {}}
+    hist = [[rng.choice([0, 1]), "F", a] for _ in range(n)]
+    hist += [[rto + rng.choice([0, 1]), "A", None], [rng.choice([0, 1]), "S", None]]
+    for _ in range(rng.randint(1, n)):
+        hist.append([rng.choice([0, 1]), "F", rng.choice([a, a, b])])
+        hist.append([0, rng.choice(["A", "Q"]), None])
+    return dict(cfg, t0=rng.choice([0, 1000, 2**40]), hist=hist)
 
 
 def exhaustive_cases(maxlen, cfgs=None):
@@ -273,6 +292,22 @@ def run_breaker_part(chk, bias, want_closed, sel, theorems_ok, n_quick, n_thorou
         ob = common.run_driver("breaker_driver", cands)
         return [oracle(c, o, want_closed) is not None for c, o in zip(cands, ob)]
 
+    if not want_closed and not bad:
+        # C07: "a successful probe closes the circuit with an empty failure history" — from that point on the breaker must
+        # answer exactly as a fresh one given the rest of the history (same configuration, same clock)
+        tw = [(i, fresh_twin(c, o)) for i, (c, o) in enumerate(zip(cases, obs))]
+        tw = [(i, t) for i, t in tw if t is not None]
+        tobs = common.run_driver("breaker_driver", [t[0] for _, t in tw], jobs=8) if tw else []
+        cov["closed_by_probe_compared_with_fresh_breaker"] = len(tw)
+        for (i, (t, k)), to in zip(tw, tobs):
+            if obs[i][k:] != to:
+                j = next((j for j in range(min(len(to), len(obs[i]) - k)) if obs[i][k + j] != to[j]), 0)
+                chk.violation({"kind": "oracle", "part": label, "fresh_twin": True,
+                               "what": f"after the successful probe (operation #{k - 1}) closed the circuit, operation #{k + j} "
+                                       f"{cases[i]['hist'][k + j]} answers {obs[i][k + j]} where a fresh breaker answers {to[j]}: the "
+                                       "failure history was not emptied", "case": cases[i], "observed": obs[i], "fresh_case": t,
+                               "fresh_observed": to, "driver": "breaker_driver", "want_closed": want_closed})
+                break
     if bad:
         i, msg = bad[0]
         small = shrink(cases[i], fails_batch)
@@ -290,9 +325,26 @@ def run_breaker_part(chk, bias, want_closed, sel, theorems_ok, n_quick, n_thorou
     return cov
 
 
+def fresh_twin(c, o):
+    """(case for a fresh breaker fed the operations after the first successful probe, index of the first of them) or None"""
+    for k, r in enumerate(o):
+        if r == ["E", "circuit_closed"] and k + 1 < len(c["hist"]):
+            t = c["t0"] + sum(h[0] for h in c["hist"][:k + 1])
+            rest = [list(h) for h in c["hist"][k + 1:]]
+            return dict(c, t0=t, hist=rest), k + 1
+    return None
+
+
 def replay_breaker(path):
     import json
     r = json.load(open(path))
+    if r.get("fresh_twin"):
+        o = common.run_driver("breaker_driver", [r["case"]])[0]
+        t, k = fresh_twin(r["case"], o)
+        to = common.run_driver("breaker_driver", [t])[0]
+        print("after the probe:", o[k:])
+        print("fresh breaker  :", to)
+        return 0 if o[k:] == to else 1
     o = common.run_driver("breaker_driver", [r["case"]])[0]
     msg = oracle(r["case"], o, r.get("want_closed", True))
     print("observed:", o)
